@@ -1159,7 +1159,6 @@ pub mod command_m {
                 !old(w).c_aborted && old(w).c_spawn == 0 && old(w).c_ready == 0 ==> *final(w) == *old(w) && final(self).tasks@ == old(self).tasks@, // [C01/run_until_settled/idempotent-once-settled]
 //@rule X6.world * s/self\.was_aborted\(\)/self.was_aborted(Tracked(w))/
 //@rule X6.world * s/self\.spawn_new_tasks\(\)/self.spawn_new_tasks(Tracked(w))/
-//@rule X6.world * s/\.is_empty\(\)/.is_empty(Tracked(w))/
 //@rule X6.world * s/\.try_recv\(\)/.try_recv(Tracked(w))/
 //@rule X6.world * s/self\.run_task\(/self.run_task(Tracked(w), /
 //@rule X6.world * s/\.wake_join_handles\(\)/.wake_join_handles(Tracked(w))/
@@ -1234,8 +1233,6 @@ pub mod command_m {
                 !old(w).c_aborted && old(w).c_spawn == 0 && old(w).c_ready == 0 ==> *final(w) == *old(w) && final(self).tasks@ == old(self).tasks@,
                 old(w).c_aborted ==> *final(w) == *old(w) && final(self).tasks@ == Map::<usize, Task>::empty(),
 //@rule X6.world * s/self\.run_until_settled\(\)/self.run_until_settled(Tracked(w))/
-//@rule X6.world * s/\.is_empty\(\)/.is_empty(Tracked(w))/
-//@rule X6.world-not-slab 1 s/self\.tasks\.is_empty\(Tracked\(w\)\)/self.tasks.is_empty()/
 //@end
     }
 }
